@@ -43,7 +43,12 @@ def gen_case(rng, tier, k):
             ops.append(["control", [[rng.randrange(64), rng.randint(0, 1)]], rng.choice(["internal", "all"])])
         else:
             ops += gen_ops(rng, 1, allow_skip=True, allow_unmodelled=True)
-    return {"bnet": bnet, "ops": ops, "cfg": {"minimum_simulation_budget": rng.choice([1, 5, 50, 1000])}}
+    budget_ = rng.choice([1, 5, 50, 1000, 1000, 100000])
+    if budget_ > 1000:
+        # large budgets only on very small networks (the work bound grows with the budget)
+        bnet = common.g_tt(rng, rng.randint(2, 3)) if rng.random() < 0.5 else "A, B\nB, A"
+        ops = [op for op in ops if op[0] in ("seedsq", "cands", "setsq", "bfs", "one", "build")] or [["cands", 0]]
+    return {"bnet": bnet, "ops": ops, "cfg": {"minimum_simulation_budget": budget_}}
 
 
 def wbound(n, d, budget):
